@@ -35,7 +35,7 @@ func emptiness(v interface{}) string {
 }
 
 func c07(r *mon.Run) {
-	r.Rule = "exhaustive: every ordered pair of a 24-value universe (all JSON types, every emptiness class, one level of nesting) x the 8 binary operators, operands supplied as literals, as document fields and mixed; ! and filter conditions [?@] / [?a] over the universe; short-circuit probes (x || E, x && E for every x and every error kind E: the right operand must be evaluated exactly when needed), also as filter conditions evaluated per element; " +
+	r.Rule = "exhaustive: every ordered pair of a 26-value universe (all JSON types, strings that hold JSON text, every emptiness class, one level of nesting) x the 8 binary operators, operands supplied as literals, as document fields and mixed; ! and filter conditions [?@] / [?a] over the universe; short-circuit probes (x || E, x && E for every x and every error kind E: the right operand must be evaluated exactly when needed), also as filter conditions evaluated per element; " +
 		"every tree of exactly three binary operators over {|| && == <} and 5 field operands (200 000 trees, one in seven as a filter condition); ! || && == != < and type() applied to what a pipe hands on, for every universe value; every operator tree of depth <= 2 over 6 representative operands (depth 3 sampled in thorough); deep equality over every ordered pair of a 56-value universe of small nested arrays and objects (different key sets of equal size, null members, element order, nesting), as ==, !=, inside a filter condition and through contains(); !, ||, && and filter conditions over the same universe given as Go pointers (*T, **T, ***T, nil; in a map, as list elements, as the document): a pointer is as true-like as its pointee; seeded random nestings inside filter conditions. node-kind pairs: 49 representatives of every node kind in each of the 38 single-hole grammar contexts and in every context of every context, on 3 documents (the trees this property owns: a logical operator or comparator, no function). Oracle: ref truth table / deep equality / numeric ordering. Non-trivial = distinct (expression, document); the (operator, left type, right type, emptiness) matrix is reported."
 	r.Exhaustive = true
 	r.Floor = 3000
